@@ -406,3 +406,6 @@ func (b *Block) InjectBeforeMeta(raws ...[]byte) {
 	b.Full = full
 	b.Hash = blockHash(b.Height, full, b.Proposer.Address)
 }
+
+// ValidatorsAt returns the engine's validator set for a height (nil when unknown).
+func (e *Engine) ValidatorsAt(h int64) ValSet { return e.valsAt[h] }
